@@ -109,20 +109,18 @@ pub struct Fault {
     pub sticky: bool,
 }
 
-/// Endless tail: record k is `prefix ++ decimal(start + k) ++ suffix`.
+/// Endless tail: record k is `template` with every "@@" replaced by decimal(start + k).
 #[derive(Clone, Debug, Serialize, Deserialize, PartialEq)]
 pub struct Endless {
-    pub prefix: String,
-    pub suffix: String,
+    pub template: String,
     pub start: u64,
 }
 
 impl Endless {
     pub fn record(&self, k: u64) -> Vec<u8> {
-        let mut v = self.prefix.clone().into_bytes();
-        v.extend_from_slice((self.start + k).to_string().as_bytes());
-        v.extend_from_slice(self.suffix.as_bytes());
-        v
+        self.template
+            .replace("@@", &(self.start + k).to_string())
+            .into_bytes()
     }
 }
 
